@@ -44,7 +44,7 @@ func checkC20() fw.Check {
 		Assumptions:   []string{"faults are combined only with a SACK-capable target, where the expected outcome is unambiguous", "Linux build"},
 		Gen: func(tier string, seed int64) []fw.Case {
 			var reqs []c20Req
-			caps := []string{"sack-ok", "sack-ok-ts", "sack-ok-chatter", "no-sackperm", "no-blocks", "closed", "no-handshake"}
+			caps := []string{"sack-ok", "sack-ok-ts", "sack-ok-chatter", "sack-ok-slow-synack", "no-sackperm", "no-blocks", "closed", "no-handshake"}
 			faults := []string{"factory", "filter1", "filter2", "send1", "send3", "read2", "read9", "read-late"}
 			for _, m := range []string{"syn", "sack", "prefer_sack"} {
 				for _, cp := range caps {
@@ -107,10 +107,21 @@ func runC20(c *fw.Ctx, id string, rq c20Req) {
 		env.peer.TS = rq.cap == "sack-ok-ts" || rq.cap == "sack-ok-chatter"
 		env.peer.TSVal, env.peer.TSEcr = 1000, 2000
 		env.peer.ShowSynAck = rq.cap != "no-handshake"
+		if rq.cap == "sack-ok-slow-synack" {
+			// the SYN-ACK of the SACK connection reaches the capture handle late, after the SYN-ACKs the target
+			// sent to the end-to-end SYN probes / other runs (those carry no SACK-permitted: a raw SYN has no options)
+			env.peer.SynAckDelay = 120 * time.Millisecond
+		}
 	}
 	dist := rq.dist
 	env.modelFor = func(k int, e *simEnv) *pathModel {
 		m := flowPath(k, e, dist, true, 5*time.Millisecond)
+		if e.spec.V.Proto == "syn" {
+			// a real target answers an option-less SYN with a SYN-ACK that has no SACK-permitted option
+			m.destBuild = func(e *simEnv, p *refmatch.Probe) []byte {
+				return gen.TCPReply(e.spec.Target, e.local, e.spec.Port, e.lport, 0x77000000, p.Seq+1, wirefmt.TCPSyn|wirefmt.TCPAck, wirefmt.OptMSS(1460), nil, nil)
+			}
+		}
 		if e.spec.V.Proto == "sack" && rq.cap == "sack-ok-chatter" {
 			// a SACK-capable target that also sends segments which are not selective ACKs: a retransmitted
 			// SYN-ACK, a FIN|ACK and a RST|ACK on the probed connection (none of them says "SACK unsupported")
@@ -208,7 +219,7 @@ func runC20(c *fw.Ctx, id string, rq c20Req) {
 		viol("e2e-count", fmt.Sprintf("%d end-to-end SYN flows on the wire, %d requested", e2eSynHandles, rq.e2e))
 	}
 	capGap := rq.cap == "no-sackperm" || rq.cap == "no-blocks" || rq.cap == "closed"
-	sackAvailable := rq.cap == "sack-ok" || rq.cap == "sack-ok-ts" || rq.cap == "sack-ok-chatter"
+	sackAvailable := rq.cap == "sack-ok" || rq.cap == "sack-ok-ts" || rq.cap == "sack-ok-chatter" || rq.cap == "sack-ok-slow-synack"
 	switch rq.method {
 	case "syn":
 		if accepted != 0 {
